@@ -193,7 +193,7 @@ struct Ctx {
     // which moves whenever an unrelated line is added above it (that made KF-C15-1 fire as an alarm after fix 07e9573)
     static std::string assert_sig(const std::string &what) {
         size_t e = what.find("expression: "), l = what.find("at line "), f = what.find(" of ", l == std::string::npos ? 0 : l);
-        if (e == std::string::npos || l == std::string::npos || f == std::string::npos) return what.substr(0, 140);
+        if (e == std::string::npos || l == std::string::npos || f == std::string::npos) { std::string t = what.substr(0, 140), o; for (size_t i = 0; i < t.size(); i++) { if (isdigit((unsigned char)t[i])) { if (o.empty() || o.back() != '#') o += '#'; } else o += t[i]; } return o; }   // (an exception text: numbers -- node ids -- are not part of the site)
         std::string expr = what.substr(e + 12, what.find('\n', e) - e - 12), file = what.substr(f + 4, what.find('\n', f) - f - 4);
         size_t sl = file.rfind('/'); if (sl != std::string::npos) file = file.substr(sl + 1);
         std::string fn = "?";
@@ -209,7 +209,7 @@ struct Ctx {
     void library_abort(const std::string &what, const std::string &desc, const std::vector<std::string> &inputClasses = {}) {
         std::string sig = assert_sig(what);
         cnt["aborted_by_assert"]++; cls("abort", sig);
-        std::vector<std::string> cl{"site:" + sig}; for (auto &c : inputClasses) cl.push_back(c);
+        std::vector<std::string> cl{"site:" + sig}; for (auto &c : inputClasses) { cl.push_back(c); cl.push_back("site:" + sig + " & " + c); }   // (site & input class: a finding can be tied to both)
         if (c15()) raw_violation("assertion_failed", cl, desc, what.substr(0, 400));
         // In the functional checks a failed library assertion on an input of the property's alphabet means that no result was delivered: it is a violation of that
         // property as well (clause library_assertion, class = the assertion's call site, so that the known sites of C15's findings can be listed per property).
